@@ -20,6 +20,11 @@ use taskchampion_sync_server_storage_sqlite::SqliteStorage;
 pub struct BOp {
     pub op: Op,
     pub inst: u8,
+    /// a client that syncs: the id argument (parent / snapshot version) is the id the PREVIOUS
+    /// response of this thread named (accepted or found version, or the parent a conflict named),
+    /// known only when that response has arrived
+    #[serde(default)]
+    pub follow: bool,
 }
 
 #[derive(Clone, Debug, Serialize, Deserialize)]
@@ -113,7 +118,8 @@ pub fn gen_plan(seed: u64, backend: Backend, entry: Entry, thorough: bool) -> Co
                 2 => Op::AddSnapshot { c, v: if r.chance(50, 100) { IdArg::Latest } else { ops::gen_idarg(&mut r, true) }, pay, ch },
                 _ => Op::GetSnapshot { c },
             };
-            v.push(BOp { op, inst: r.below(instances as u64) as u8 });
+            let follow = !v.is_empty() && !matches!(op, Op::GetSnapshot { .. }) && r.chance(45, 100);
+            v.push(BOp { op, inst: r.below(instances as u64) as u8, follow });
         }
         if !v.is_empty() {
             batch.push(v);
@@ -301,7 +307,7 @@ pub fn exec(plan: &ConcPlan) -> RunOut {
         insts.push(Arc::new(Instance::new(raw, plan.cfg, None, plan.skews_us.get(i as usize).copied().unwrap_or(0))));
     }
     // resolve the batch against the prefix state
-    let reqs: Vec<Vec<(Req, Chunking, usize)>> = plan
+    let reqs: Vec<Vec<(Req, Chunking, usize, bool)>> = plan
         .batch
         .iter()
         .map(|t| {
@@ -311,7 +317,7 @@ pub fn exec(plan: &ConcPlan) -> RunOut {
                         Op::AddVersion { ch, .. } | Op::AddSnapshot { ch, .. } => ch.clone(),
                         _ => Chunking::Whole,
                     };
-                    ops::concretise(plan.seed, &w.model, plan.n_clients, &b.op).map(|r| (r, ch, (b.inst as usize) % insts.len()))
+                    ops::concretise(plan.seed, &w.model, plan.n_clients, &b.op).map(|r| (r, ch, (b.inst as usize) % insts.len(), b.follow))
                 })
                 .collect()
         })
@@ -359,7 +365,7 @@ pub fn exec(plan: &ConcPlan) -> RunOut {
                 for (tid, list) in reqs.iter().enumerate() {
                     let seed = plan.seed;
                     tasks.push(Box::pin(async move {
-                        for (k, (req, ch, _)) in list.iter().enumerate() {
+                        for (k, (req, ch, _, _)) in list.iter().enumerate() {
                             let mut w = match crate::http::wire_for(req, ch) {
                                 Some(w) => w,
                                 None => continue,
@@ -391,8 +397,22 @@ pub fn exec(plan: &ConcPlan) -> RunOut {
     } else {
         sched::run_threads(n_threads, &plan.sched, 20_000, |tid| {
         let mut apps: Vec<Option<HttpApp>> = (0..insts.len()).map(|_| None).collect();
-        for (k, (req, ch, ii)) in reqs[tid].iter().enumerate() {
+        let mut prev_id: Option<uuid::Uuid> = None;
+        for (k, (req0, ch, ii, follow)) in reqs[tid].iter().enumerate() {
             let inst = &insts[*ii];
+            let followed: Req;
+            let req: &Req = match (follow, prev_id) {
+                (true, Some(id)) => {
+                    followed = match req0 {
+                        Req::AddVersion { c, data, .. } => Req::AddVersion { c: *c, parent: id, data: data.clone() },
+                        Req::GetChild { c, .. } => Req::GetChild { c: *c, parent: id },
+                        Req::AddSnapshot { c, data, .. } => Req::AddSnapshot { c: *c, v: id, data: data.clone() },
+                        other => other.clone(),
+                    };
+                    &followed
+                }
+                _ => req0,
+            };
             let inv = sched::stamp();
             // the serving instance reads the simulated clock plus its own skew
             let t_inv = sched::now_us() + inst.skew_us;
@@ -430,6 +450,11 @@ pub fn exec(plan: &ConcPlan) -> RunOut {
             };
             let t_ret = sched::now_us() + inst.skew_us;
             let ret = sched::stamp();
+            match &resp {
+                Resp::AvOk { id, .. } | Resp::GcFound { id, .. } | Resp::GsFound { id, .. } => prev_id = Some(*id),
+                Resp::AvConflict { expected } => prev_id = Some(*expected),
+                _ => {}
+            }
             done.lock().unwrap().push(Done { tid, req: req.clone(), resp, inv, ret, t_inv, t_ret });
         }
         })
